@@ -20,6 +20,10 @@ CHECKS = {
             'Bounded symbolic verification plus a floating-point kernel: one evaluate() of the real LegacyPerformanceModel (evaluate, _evaluate_checked, evaluate_impl, PerformanceTable.interpolate, Interpolator.__call__) with every table value, the altitude and the mass symbolic over a reference model of scipy interpn; z3 decides that the result is the piecewise (bi)linear interpolation of exactly the selected phase table at (altitude*METERS_TO_FL, mass), depends only on altitude, mass and phase, that states outside the phase envelope are refused and none inside is, and that min/max mean the extreme table masses; the interpolant is exact at nodes and bounded by corner values (NRA). QF_FP (z3, cvc5 cross-check) over all integer flight levels 0..600 decides that a tabulated level expressed in metres with the library\'s own factors stays within the edge tolerance the implementation applies. build_performance_table (compiled from the current source) reproduces every symbolic PTF row exactly once.',
             'grid coordinates concrete; pandas assembly code (dense-grid refusal at load, subset, Interpolator.__init__) and PTF text parsing are not decided by this technique (declared in DESIGN.md); interpn replaced by a reference model validated against scipy each run',
             'proxy symbolic execution + z3 (LRA/NRA) and QF_FP bit-precise query', 'DESIGN.md#c06'),
+    'C07': ('model_checking',
+            'Kernel decided by z3 for all sizes: the real _load_trajectory runs with solver integers for the index, the number of trajectories at open time, the number added in the session and the per-file sizes of merged stores, on file records whose variables report the position they are read at; the position read must be the position add wrote (negative positions normalised against the current file length), and an index is loaded iff it is below the length. Histories: every sequence of L operations (add with varying reported sizes, read any index incl. one beyond the end, len, iterate, sync, close+reopen for append/read) with ample and tiny caches, file-backed and in-memory, runs on the real store over a netCDF4 model and is compared with a Python list (exhaustive bounded enumeration, operation codes being solver variables). Counterexamples and sample histories are replayed on the real netCDF4.',
+            'netCDF4 replaced by vf/models/fakenc.py, trusted because the repository storage tests pass with it substituted (re-run in every check run) and because counterexamples replay on the real library; L = 4 (thorough 5) operations; cache_size_mb=0 outside',
+            'proxy symbolic execution with solver integers (z3 LIA) + exhaustive bounded history exploration', 'DESIGN.md#c07'),
     'C11': ('other',
             'Bounded symbolic verification over configurations: the 12 documented options are solver variables read through concretising forks, the real compute_emissions runs for every feasible option combination on symbolic data; every path must return (then switched-off species are proved absent/zero in trajectory and LTO parts) or raise a refusal naming the offending option value; any other exception is a counterexample configuration, replayed through the real Config.load + compute_emissions.',
             'same engine and stubs as C01; classification of an exception as a named refusal is by message text',
